@@ -118,3 +118,136 @@ def set_sum(labels):
 
 def _fill_buffer(out, i):
     out[i] = 0
+
+
+def set_order_local(ids):
+    found = set(ids)
+    found = list(found)
+    return found
+
+
+def argmax_mask(positions, site_mask):
+    return positions[np.argmax(~site_mask)]
+
+
+def argmax_mask_guarded(positions, site_mask):
+    if np.any(~site_mask):
+        return positions[np.argmax(~site_mask)]
+    return None
+
+
+def implicit_none(path, local_file):
+    try:
+        return open(path)
+    except OSError as e:
+        if local_file:
+            raise ValueError(str(e))
+
+
+def explicit_raise(path, local_file):
+    try:
+        return open(path)
+    except OSError as e:
+        if local_file:
+            raise ValueError(str(e))
+        raise
+
+
+def param_override(edges, sequence_length=0):
+    if len(edges) > 0:
+        sequence_length = max(sequence_length, edges.right.max())
+    return sequence_length
+
+
+def param_default_filled(edges, sequence_length=0):
+    if sequence_length == 0 and len(edges) > 0:
+        sequence_length = edges.right.max()
+    return sequence_length
+
+
+def raw_index(tree, u):
+    parent = tree._parent_array
+    return parent[u]
+
+
+def raw_index_checked(tree, u):
+    parent = tree._parent_array
+    if u < 0 or u >= len(parent):
+        raise ValueError("out of bounds")
+    return parent[u]
+
+
+def try_multi(header):
+    a = b = None
+    try:
+        a = header.index("location")
+        b = header.index("parents")
+    except ValueError:
+        pass
+    return a, b
+
+
+def try_single(header):
+    a = b = None
+    try:
+        a = header.index("location")
+    except ValueError:
+        pass
+    try:
+        b = header.index("parents")
+    except ValueError:
+        pass
+    return a, b
+
+
+def zip_domain(ts):
+    unknown = np.isnan(ts.mutations_time)
+    out = []
+    for site in ts.sites():
+        for mutation, flag in zip(site.mutations, unknown):
+            out.append((mutation, flag))
+    return out
+
+
+def zip_same_table(ts):
+    return list(zip(ts.mutations_time, ts.mutations_node))
+
+
+class Seq:
+    def __eq__(self, other):
+        return all(a == b for a, b in zip(self, other))
+
+
+class Seq2:
+    def __eq__(self, other):
+        return len(self) == len(other) and all(a == b for a, b in zip(self, other))
+
+
+def or_none(schema):
+    return repr(schema) or None
+
+
+def alloc_domain(ts):
+    in_set = np.zeros(ts.num_nodes, dtype=bool)
+    in_set[ts.samples()[0]] = True
+    return in_set[: ts.num_samples]
+
+
+def alloc_domain_indexed(ts):
+    in_set = np.zeros(ts.num_nodes, dtype=bool)
+    in_set[ts.samples()[0]] = True
+    return in_set[ts.samples()]
+
+
+def fold_dropped(tree, args):
+    mrca = args[0]
+    for node in args[1:]:
+        mrca = tree.get_mrca(args[0], node)
+    return mrca
+
+
+def fold_kept(tree, args):
+    mrca = args[0]
+    for node in args[1:]:
+        mrca = tree.get_mrca(mrca, node)
+    return mrca
